@@ -210,7 +210,9 @@ def parse_member(block):
             name = "<init>"
     else:
         name = decl.rstrip(";").split()[-1]
-    res = ["%s %s %s flags %s" % ("method" if is_method else "field", norm(name), desc, flags)]
+    head = ["%s %s %s flags %s" % ("method" if is_method else "field", norm(name), desc, flags)]
+    res = []   # const / signature / throws, ordered below
+    code_res = []
     i = 1
     code_lines = None
     while i < len(block):
@@ -247,11 +249,13 @@ def parse_member(block):
             while j < len(block) and (block[j].startswith("      ") or block[j].strip() == ""):
                 j += 1
             code_lines = block[i + 1:j]
-            res.extend(parse_code(code_lines))
+            code_res = parse_code(code_lines)
             i = j
             continue
         i += 1
-    return res
+    order = {"const": 0, "signature": 1, "throws": 2}
+    res.sort(key=lambda l: order[l.split()[0]])
+    return head + res + code_res
 
 
 def parse_code(cl):
@@ -262,7 +266,7 @@ def parse_code(cl):
     i = 1
     while i < len(cl):
         m = re.match(r"^\s+(\d+): (\w+)\s*(.*)$", cl[i])
-        if not m or not cl[i].startswith("        "):
+        if not m:
             break
         off, mn, rest = int(m.group(1)), m.group(2), m.group(3)
         extra = []
@@ -435,6 +439,9 @@ if body_start < len(lines):
     for b in blocks:
         out.extend(parse_member(b))
 
+tail_out = []
+_real_out = out
+out = tail_out
 i = 0
 while i < len(tail):
     s = tail[i]
@@ -466,4 +473,7 @@ while i < len(tail):
             i -= 1
     i += 1
 
+order = {"inner": 0, "enclosing": 1, "nesthost": 2, "nestmember": 3, "permitted": 4}
+tail_out.sort(key=lambda l: order[l.split()[0]])
+out = _real_out + tail_out
 print("\n".join(out))
